@@ -39,6 +39,9 @@ const smtPrelude = `(set-option :produce-models true)
 (declare-fun url_host (String) String)
 (declare-fun url_ok (String) Bool)
 (declare-fun url_norm (String) String)
+(assert (and (url_ok "https://www.w3.org/ns/activitystreams#Public") (= (url_scheme "https://www.w3.org/ns/activitystreams#Public") "https") (= (url_host "https://www.w3.org/ns/activitystreams#Public") "www.w3.org") (= (url_norm "https://www.w3.org/ns/activitystreams#Public") "https://www.w3.org/ns/activitystreams#Public")))
+(assert (and (url_ok "as:Public") (= (url_scheme "as:Public") "as") (= (url_host "as:Public") "") (= (url_norm "as:Public") "as:Public")))
+(assert (and (url_ok "https://www.w3.org/ns/activitystreams") (= (url_scheme "https://www.w3.org/ns/activitystreams") "https") (= (url_host "https://www.w3.org/ns/activitystreams") "www.w3.org")))
 `
 
 func newSolver(kind solverKind, tlimitMs int, logPath string) (*solver, error) {
